@@ -70,6 +70,7 @@ struct RunOutcome {
     uint64_t idle_points = 0, handlers = 0;
     uint64_t handler_boundaries = 0;   // handlers executed in the main phase (positions available for handler_index)
     vt t_end = 0;
+    std::vector<vt> timer_instants;    // instants the clock was advanced to because a library timer was due (capped)
 };
 
 // everything a monitor can look at
